@@ -116,62 +116,22 @@ func multiplication(X, Y []byte) (Z []byte) {
 }
 
 func GHASH(H []byte, A []byte, C []byte) (X []byte) {
+	X = make([]byte, BlockSize) //X0 = 0
 
-	calculm_v := func(m, v int) (int, int) {
-		if m == 0 && v != 0 {
-			m = 1
-			v = v * 8
-		} else if m != 0 && v == 0 {
-			v = BlockSize * 8
-		} else if m != 0 && v != 0 {
-			m = m + 1
-			v = v * 8
-		} else { //m==0 && v==0
-			m = 1
-			v = 0
+	// X_i = (X_{i-1} + B_i) * H over the blocks of data, the last one zero padded;
+	// empty data contributes no block.
+	update := func(data []byte) {
+		for len(data) > 0 {
+			block := make([]byte, BlockSize)
+			n := copy(block, data)
+			data = data[n:]
+			X = multiplication(addition(X, block), H)
 		}
-		return m, v
 	}
-	m := len(A) / BlockSize
-	v := len(A) % BlockSize
-	m, v = calculm_v(m, v)
+	update(A)
+	update(C)
 
-	n := len(C) / BlockSize
-	u := (len(C) % BlockSize)
-	n, u = calculm_v(n, u)
-
-	//i=0
-	X = make([]byte, BlockSize*(m+n+2)) //X0 = 0
-	for i := 0; i < BlockSize; i++ {
-		X[i] = 0x00
-	}
-
-	//i=1...m-1
-	for i := 1; i <= m-1; i++ {
-		copy(X[i*BlockSize:i*BlockSize+BlockSize], multiplication(addition(X[(i-1)*BlockSize:(i-1)*BlockSize+BlockSize], A[(i-1)*BlockSize:(i-1)*BlockSize+BlockSize]), H)) //A 1-->m-1 对于数组来说是 0-->m-2
-	}
-
-	//i=m
-	zeros := make([]byte, (128-v)/8)
-	Am := make([]byte, v/8)
-	copy(Am[:], A[(m-1)*BlockSize:])
-	Am = append(Am, zeros...)
-	copy(X[m*BlockSize:m*BlockSize+BlockSize], multiplication(addition(X[(m-1)*BlockSize:(m-1)*BlockSize+BlockSize], Am), H))
-
-	//i=m+1...m+n-1
-	for i := m + 1; i <= (m + n - 1); i++ {
-		copy(X[i*BlockSize:i*BlockSize+BlockSize], multiplication(addition(X[(i-1)*BlockSize:(i-1)*BlockSize+BlockSize], C[(i-m-1)*BlockSize:(i-m-1)*BlockSize+BlockSize]), H))
-	}
-
-	//i=m+n
-	zeros = make([]byte, (128-u)/8)
-	Cn := make([]byte, u/8)
-	copy(Cn[:], C[(n-1)*BlockSize:])
-	Cn = append(Cn, zeros...)
-	copy(X[(m+n)*BlockSize:(m+n)*BlockSize+BlockSize], multiplication(addition(X[(m+n-1)*BlockSize:(m+n-1)*BlockSize+BlockSize], Cn), H))
-
-	//i=m+n+1
-	var lenAB []byte
+	// len(A) || len(C), both in bits
 	calculateLenToBytes := func(len int) []byte {
 		data := make([]byte, 8)
 		data[0] = byte((len >> 56) & 0xff)
@@ -184,10 +144,10 @@ func GHASH(H []byte, A []byte, C []byte) (X []byte) {
 		data[7] = byte((len >> 0) & 0xff)
 		return data
 	}
-	lenAB = append(lenAB, calculateLenToBytes(len(A))...)
-	lenAB = append(lenAB, calculateLenToBytes(len(C))...)
-	copy(X[(m+n+1)*BlockSize:(m+n+1)*BlockSize+BlockSize], multiplication(addition(X[(m+n)*BlockSize:(m+n)*BlockSize+BlockSize], lenAB), H))
-	return X[(m+n+1)*BlockSize : (m+n+1)*BlockSize+BlockSize]
+	var lenAB []byte
+	lenAB = append(lenAB, calculateLenToBytes(len(A)*8)...)
+	lenAB = append(lenAB, calculateLenToBytes(len(C)*8)...)
+	return multiplication(addition(X, lenAB), H)
 }
 
 // GetY0 生成初始的计数器时钟J0
@@ -198,8 +158,9 @@ func GHASH(H []byte, A []byte, C []byte) (X []byte) {
 func GetY0(H, IV []byte) []byte {
 	if len(IV)*8 == 96 {
 		zero31one1 := []byte{0x00, 0x00, 0x00, 0x01}
-		IV = append(IV, zero31one1...)
-		return IV
+		Y0 := make([]byte, 0, BlockSize)
+		Y0 = append(Y0, IV...)
+		return append(Y0, zero31one1...)
 	} else {
 		return GHASH(H, []byte{}, IV)
 	}
@@ -210,28 +171,16 @@ func incr(n int, Y_i []byte) (Y_ii []byte) {
 	Y_ii = make([]byte, BlockSize*n)
 	copy(Y_ii, Y_i)
 
+	// incr increments the rightmost 32 bits of the block modulo 2^32 and
+	// leaves the other 96 bits unchanged.
 	addYone := func(yi, yii []byte) {
 		copy(yii[:], yi[:])
 
 		Len := len(yi)
-		var rc byte = 0x00
-		for i := Len - 1; i >= 0; i-- {
-			if i == Len-1 {
-				if yii[i] < 0xff {
-					yii[i] = yii[i] + 0x01
-					rc = 0x00
-				} else {
-					yii[i] = 0x00
-					rc = 0x01
-				}
-			} else {
-				if yii[i]+rc < 0xff {
-					yii[i] = yii[i] + rc
-					rc = 0x00
-				} else {
-					yii[i] = 0x00
-					rc = 0x01
-				}
+		for i := Len - 1; i >= Len-4; i-- {
+			yii[i]++
+			if yii[i] != 0x00 {
+				break
 			}
 		}
 	}
@@ -341,8 +290,8 @@ func GCMDecrypt(K, IV, C, A []byte) (P, _T []byte) {
 	Y := make([]byte, BlockSize*(n+1))
 	Y = incr(n+1, Y0)
 
-	P = make([]byte, BlockSize*n)
-	for i := 1; i <= n; i++ {
+	P = make([]byte, len(C))
+	for i := 1; i <= n-1; i++ {
 		c.Encrypt(Enc, Y[i*BlockSize:i*BlockSize+BlockSize])
 		copy(P[(i-1)*BlockSize:(i-1)*BlockSize+BlockSize], addition(C[(i-1)*BlockSize:(i-1)*BlockSize+BlockSize], Enc))
 	}
